@@ -163,6 +163,19 @@ func main() {
 		code = runCheck(cfg, spec)
 	case "replay":
 		code = runReplay(cfg, arg)
+	case "compose":
+		// development aid: write composed grammars to the directory given as argument
+		pool, descs, err := composeDetPool(cfg, 40)
+		if err != nil {
+			die2("%v", err)
+		}
+		os.MkdirAll(arg, 0o755)
+		for _, p := range pool {
+			b, _ := os.ReadFile(p.Path)
+			os.WriteFile(filepath.Join(arg, filepath.Base(p.Path)), b, 0o644)
+			fmt.Println(filepath.Base(p.Path), descs[p.ID])
+		}
+		code = 0
 	case "sites":
 		r, err := rewriteDeterminismSeams(cfg.repo)
 		if err != nil {
